@@ -132,6 +132,10 @@ func Plan(pkgs []*packages.Package, known map[string]bool, module string) *Resul
 				if known[key] {
 					continue
 				}
+				// a reference function that became a method (or changed receiver) is still that function
+				if recvChanged(known, rel, fd) {
+					continue
+				}
 				obj, _ := p.TypesInfo.Defs[fd.Name].(*types.Func)
 				if obj == nil {
 					continue
@@ -147,6 +151,31 @@ func Plan(pkgs []*packages.Package, known map[string]bool, module string) *Resul
 		pl.run()
 	}
 	return res
+}
+
+var knownBare map[string]map[string]int
+
+// recvChanged: the reference list has exactly one function of that name in the
+// package, under another receiver (or none), and the tree no longer has that one.
+func recvChanged(known map[string]bool, rel string, fd *ast.FuncDecl) bool {
+	if knownBare == nil {
+		knownBare = map[string]map[string]int{}
+		for k := range known {
+			i := strings.Index(k, " ")
+			if i < 0 {
+				continue
+			}
+			pkg, fk := k[:i], k[i+1:]
+			if j := strings.LastIndex(fk, "."); j >= 0 {
+				fk = fk[j+1:]
+			}
+			if knownBare[pkg] == nil {
+				knownBare[pkg] = map[string]int{}
+			}
+			knownBare[pkg][fk]++
+		}
+	}
+	return knownBare[rel][fd.Name.Name] == 1
 }
 
 // notInlinable screens out callees whose body cannot be moved into a caller.
@@ -1737,7 +1766,7 @@ func DeadHelpers(pkgs []*packages.Package, known map[string]bool, module string)
 				decls = append(decls, fd)
 				obj, _ := p.TypesInfo.Defs[fd.Name].(*types.Func)
 				owner[fd] = obj
-				if obj != nil && !known[rel+" "+FuncKey(fd)] && !obj.Exported() {
+				if obj != nil && !known[rel+" "+FuncKey(fd)] && !recvChanged(known, rel, fd) && !obj.Exported() {
 					cand[obj] = fd
 				}
 			}
